@@ -294,6 +294,45 @@ def main():
             return z3.Bool("%s_%d" % (tag, len(cur["node"].events)))
         return f
 
+    # ---- concrete maps for the field-selection scenarios
+    def key_text(k):
+        v = k[2][0]
+        if k[1] == "Key::String":
+            return v[1]
+        if k[1] == "Key::Bool":
+            return "true" if v else "false"
+        return str(v)
+
+    def m_hm_keys(e, m, a):
+        hm = deref(e, a[0])
+        return ["keys_iter", [k for k, _ in hm[1]], 0]
+
+    def m_keys_next(e, m, a):
+        it = deref(e, a[0])
+        if it[2] < len(it[1]):
+            it[2] += 1
+            return ("Some", Ref({0: it[1][it[2] - 1]}, 0, ()))
+        return ("None",)
+
+    def m_key_to_string(e, m, a):
+        return ("string", key_text(deref(e, a[0])))
+
+    def m_string_eq(e, m, a):
+        return deref(e, a[0])[1] == deref(e, a[1])[1]
+
+    def m_hm_get(e, m, a):
+        hm, key = deref(e, a[0]), deref(e, a[1])
+        cur["node"].events.append(("hm_get", key))
+        for k, v in hm[1]:
+            if k[1] == key[1] and k[2][0] == key[2][0]:
+                return ("Some", Ref({0: v}, 0, ()))
+        return ("None",)
+
+    def m_has_function(e, m, a):
+        nm = a[1]
+        cur["node"].events.append(("has_function", nm[1].decode() if isinstance(nm[1], bytes) else nm[1]))
+        return e.decide(z3.Bool("has_function"))
+
     def m_into_key(e, m, a):
         k = {"Arc<std::string::String>": "String", "bool": "Bool", "i64": "Int", "u64": "Uint"}[m.group(1)]
         return ("enum", "Key::" + k, [a[0]])
@@ -309,6 +348,15 @@ def main():
         (r"^<std::string::String as Index<std::ops::Range<usize>>>::index$", m_str_index_range),
         (r"^<str as ToString>::to_string$", lambda e, m, a: ("string_of", a[0])),
         (r"^(?:objects::)?Map::get$", m_map_get),
+        (r"^HashMap::<Key, Value>::keys$", m_hm_keys),
+        (r"^<std::collections::hash_map::Keys<'_, Key, Value> as IntoIterator>::into_iter$", lambda e, m, a: a[0]),
+        (r"^<std::collections::hash_map::Keys<'_, Key, Value> as Iterator>::next$", m_keys_next),
+        (r"^<Key as ToString>::to_string$", m_key_to_string),
+        (r"^<std::string::String as PartialEq>::eq$", m_string_eq),
+        (r"^HashMap::<Key, Value>::get::<Key>$", m_hm_get),
+        (r"^context::Context::<'_>::has_function$", m_has_function),
+        (r"^<str as ToOwned>::to_owned$", lambda e, m, a: ("string", a[0][1].decode() if isinstance(a[0][1], bytes) else a[0][1])),
+        (r"^<Value as (?:std::convert::)?Into<Box<Value>>>::into$", lambda e, m, a: ("box", a[0])),
         (r"^HashMap::<Key, Value>::contains_key::<Key>$", m_sym_bool("contains_key")),
         (r"^core::slice::<impl \[Value\]>::contains$", m_sym_bool("list_contains")),
         (r"^core::str::<impl str>::contains::<&(?:str|std::string::String)>$", m_sym_bool("str_contains")),
@@ -703,6 +751,81 @@ def main():
         stats["solver_s"] += eng.stats["solver_s"]
         stats["functions"] |= eng.stats["functions"]
 
+    SELECT_MAPS = [[], ["field"], ["other"], ["field", "other"], ["other", "field"], [1], [True, "other"], [1, "field"]]
+
+    def run_select_scenario(test, lk, mapcfg=None):
+        """field selection `x.field` and presence test `has(x.field)` on one node"""
+        stats["scenarios"] += 1
+        desc = {"node": "select", "operator": "select", "opcode": "SELECT", "operands": [lk], "test": test, "map_keys": mapcfg}
+
+        def mk_key(k):
+            if isinstance(k, bool):
+                return ("enum", "Key::Bool", [k])
+            if isinstance(k, int):
+                return ("enum", "Key::Int", [k])
+            return ("enum", "Key::String", [("string", k)])
+        if lk == "map":
+            entries = [(mk_key(k), ("abs_val", "entry_%d" % j)) for j, k in enumerate(mapcfg)]
+            left = ("enum", "Result::Ok", [("enum", "Value::Map", [[("arc", ("hashmap", entries))]])])
+        else:
+            left = R[0][lk]
+        node = Node("select", [left, R[1]["null"], R[2]["null"]])
+        expr = [7, ("enum", "Expr::Select", [[[[Ref({0: operand_expr(0, "call")}, 0, ())]], ("string", "field"), test]])]
+        pseudo = {0: expr}
+        eng = new_engine()
+        eng.discriminants.update({"Key::Int": 0, "Key::Uint": 1, "Key::Bool": 2, "Key::String": 3})
+
+        def entry(e):
+            cur.clear()
+            cur.update({"node": node, "eq": eq_sym, "cmp_some": cmp_some, "ord": ord_sym, "ident_owner": {}})
+            node.events = []
+            return e.call_fn(fn, [Ref(pseudo, 0, ()), Opaque("ctx")])
+
+        def on_path(res, e):
+            probs = []
+            evs = [x[1] for x in node.events if x[0] == "resolve"]
+            if evs != [0]:
+                probs.append("operand evaluations %s, expected [0]" % evs)
+            hf = [x for x in node.events if x[0] == "has_function"]
+            present = lk == "map" and "field" in [k for k in mapcfg if isinstance(k, str)]
+            if lk == "err":
+                ok = surely(same(res, left))
+            elif test:
+                # presence is a property of the map alone: registered functions play no part
+                ok = surely(same(res, ("enum", "Result::Ok", [("enum", "Value::Bool", [present])])))
+            elif present:
+                ok = surely(same(res, ("enum", "Result::Ok", [("abs_val", "entry_%d" % mapcfg.index("field"))])))
+            else:
+                fdecl = bool(hf) and z3.is_true(e.solver.model().eval(z3.Bool("has_function"), model_completion=True)) if e.check() else False
+                if fdecl:
+                    ok = res[1] == "Result::Ok" and res[2][0][1] == "Value::Function" and surely(same(res[2][0][2][0], ("string", "field"))) \
+                        and surely(same(res[2][0][2][1], ("Some", ("box", left[2][0]))))
+                else:
+                    ok = res[1] == "Result::Err" and res[2][0][1] == "ExecutionError::NoSuchKey" and surely(same(res[2][0][2][0], ("string", "field")))
+                if any(x[1] != "field" for x in hf):
+                    ok = False
+            if not ok:
+                probs.append("result %r is not the specified one (field present: %s)" % (str(res)[:300], present))
+            if probs:
+                failures.append(dict(desc, problems=probs, events=[str(x)[:120] for x in node.events], replay=None,
+                                     select_replay=[1 if test else 0, ["err", "int", "null", "string", "list", "map"].index(lk),
+                                                    SELECT_MAPS.index(mapcfg) if mapcfg is not None else 0,
+                                                    1 if (hf and e.check() and z3.is_true(e.solver.model().eval(z3.Bool("has_function"), model_completion=True))) else 0]))
+            else:
+                stats["proved"] += 1
+                if len(samples) < 80 and stats["scenarios"] % 4 == 0:
+                    samples.append(dict(desc, events=[str(x)[:80] for x in node.events], result=res[1]))
+        try:
+            eng.explore(entry, None, on_path, base)
+        except PanicFound as p:
+            failures.append(dict(desc, problems=["panic reachable: %s" % p.msg], panics=eng.violations[:2], replay=None,
+                                 select_replay=[1 if test else 0, ["err", "int", "null", "string", "list", "map"].index(lk),
+                                                SELECT_MAPS.index(mapcfg) if mapcfg is not None else 0, 0]))
+        for k in ("paths", "queries", "assert_obligations"):
+            stats[k] += eng.stats[k]
+        stats["solver_s"] += eng.stats["solver_s"]
+        stats["functions"] |= eng.stats["functions"]
+
     def order_access(opc):
         return 0 if opc == "INDEX" else 1
 
@@ -780,6 +903,12 @@ def main():
             for lk in akinds:
                 for rk in akinds:
                     run_access_scenario(opc, lk, rk)
+        if True:
+            for test in (False, True):
+                for lk in ("err", "int", "null", "string", "list"):
+                    run_select_scenario(test, lk)
+                for cfg in SELECT_MAPS:
+                    run_select_scenario(test, "map", cfg)
         for nargs in range(0, 4):
             for has_target in (False, True):
                 for declared in (True, False):
